@@ -3,6 +3,7 @@
 use crate::evidence::Ctx;
 
 pub mod c09;
+pub mod pool_props;
 pub mod c11;
 pub mod c12;
 pub mod c15;
@@ -13,6 +14,12 @@ pub mod c20;
 
 pub fn run(ctx: &mut Ctx) -> Result<(), String> {
     match ctx.prop.as_str() {
+        "C03" => pool_props::run(ctx, "C03", 480, 40_000),
+        "C04" => pool_props::run(ctx, "C04", 480, 40_000),
+        "C06" => pool_props::run(ctx, "C06", 480, 40_000),
+        "C07" => pool_props::run(ctx, "C07", 480, 40_000),
+        "C08" => pool_props::run(ctx, "C08", 480, 40_000),
+        "C18" => pool_props::run(ctx, "C18", 320, 20_000),
         "C09" => c09::run(ctx),
         "C11" => c11::run(ctx),
         "C12" => c12::run(ctx),
